@@ -10,18 +10,18 @@ use crate::proto::{LabelPair, Metric};
 
 /// append-only writer into a fixed buffer (no heap growth under the solver)
 struct Buf {
-    data: [u8; 96],
+    data: [u8; 48],
     len: usize,
 }
 impl Buf {
-    fn new() -> Buf { Buf { data: [0; 96], len: 0 } }
+    fn new() -> Buf { Buf { data: [0; 48], len: 0 } }
 }
 impl WriteUtf8 for Buf {
     fn write_all(&mut self, text: &str) -> io::Result<()> {
         let b = text.as_bytes();
         let mut i = 0;
         while i < b.len() {
-            assert!(self.len < 96, "C04 harness buffer too small");
+            assert!(self.len < 48, "C04 harness buffer too small");
             self.data[self.len] = b[i];
             self.len += 1;
             i += 1;
@@ -31,11 +31,11 @@ impl WriteUtf8 for Buf {
 }
 /// reference writer: the expected bytes
 struct Exp {
-    data: [u8; 96],
+    data: [u8; 48],
     len: usize,
 }
 impl Exp {
-    fn new() -> Exp { Exp { data: [0; 96], len: 0 } }
+    fn new() -> Exp { Exp { data: [0; 48], len: 0 } }
     fn push(&mut self, b: u8) { self.data[self.len] = b; self.len += 1; }
     fn lit(&mut self, s: &str) { let b = s.as_bytes(); let mut i = 0; while i < b.len() { self.push(b[i]); i += 1; } }
     /// format 0.0.4 escaping: backslash, newline, and (label values only) the double quote
@@ -63,7 +63,7 @@ fn same(got: &[u8], glen: usize, e: &Exp) -> bool {
     if glen != e.len { return false; }
     let mut i = 0;
     let mut ok = true;
-    while i < 96 {
+    while i < 48 {
         if i < glen && got[i] != e.data[i] { ok = false; }
         i += 1;
     }
@@ -112,6 +112,13 @@ fn escape_case(bytes: &[u8], quote: bool) {
     std::mem::forget(got);
 }
 
+/// escape_string on every 1-byte string over the escape classes, both modes.
+#[cfg_attr(kani, kani::proof, kani::unwind(10),
+    kani::stub(crate::encoder::text::find_first_occurence, naive_first))]
+pub fn c04_escape_string_1_byte() {
+    let b = [cls()];
+    escape_case(&b, any_bool());
+}
 /// escape_string on every 2-byte string over the escape classes, help and label-value mode.
 #[cfg_attr(kani, kani::proof, kani::unwind(10),
     kani::stub(crate::encoder::text::find_first_occurence, naive_first))]
@@ -171,7 +178,7 @@ pub fn c04_write_sample_layout() {
     std::mem::forget(m);
 }
 /// write_sample without labels and without postfix: `name <value>\n`.
-#[cfg_attr(kani, kani::proof, kani::unwind(20),
+#[cfg_attr(kani, kani::proof, kani::unwind(50),
     kani::stub(crate::encoder::text::find_first_occurence, naive_first),
     kani::stub(<f64 as std::fmt::Display>::fmt, f64_display_marker),
     kani::stub(<i64 as std::fmt::Display>::fmt, i64_display_marker))]
@@ -186,13 +193,164 @@ pub fn c04_write_sample_no_labels() {
     std::mem::forget(m);
 }
 
+
+use crate::proto::{Bucket, Counter, Gauge, Histogram, MetricFamily, MetricType, Quantile, Summary};
+
+/// Histogram family (literal names, one label, one explicit bucket) with symbolic numbers: bucket
+/// bound, cumulative count, sample count, sample sum, and timestamp. Output must be exactly
+/// HELP, TYPE, the bucket line, the implicit +Inf bucket = sample count, _sum, _count.
+#[cfg_attr(kani, kani::proof, kani::unwind(180),
+    kani::stub(crate::encoder::text::find_first_occurence, naive_first),
+    kani::stub(<f64 as std::fmt::Display>::fmt, f64_display_marker),
+    kani::stub(<i64 as std::fmt::Display>::fmt, i64_display_marker))]
+pub fn c04_encode_histogram_family_layout() {
+    let (bound, sum) = (any_f64(), any_f64());
+    let (cum, cnt) = (any_u64(), any_u64());
+    assume(!(bound == f64::INFINITY));
+    let mut h = Histogram::default();
+    h.set_sample_count(cnt);
+    h.set_sample_sum(sum);
+    let mut b = Bucket::default();
+    b.set_upper_bound(bound);
+    b.set_cumulative_count(cum);
+    h.set_bucket(vec![b]);
+    let mut m = Metric::from_label(vec![label("l", b"v")]);
+    m.set_histogram(h);
+    let mut mf = MetricFamily::default();
+    mf.set_name(String::from("h"));
+    mf.set_help(String::from("x"));
+    mf.set_field_type(MetricType::HISTOGRAM);
+    mf.set_metric(vec![m]);
+    let mut out = String::from("P\n");
+    let r = TextEncoder::new().encode_utf8(&[mf], &mut out);
+    assert!(r.is_ok());
+    let mut e = Exp2::new();
+    e.lit("P\n# HELP h x\n# TYPE h histogram\n");
+    e.lit("h_bucket{l=\"v\",le=\""); e.hex16(bound.to_bits()); e.lit("\"} "); e.hex16((cum as f64).to_bits()); e.lit("\n");
+    e.lit("h_bucket{l=\"v\",le=\"+Inf\"} "); e.hex16((cnt as f64).to_bits()); e.lit("\n");
+    e.lit("h_sum{l=\"v\"} "); e.hex16(sum.to_bits()); e.lit("\n");
+    e.lit("h_count{l=\"v\"} "); e.hex16((cnt as f64).to_bits()); e.lit("\n");
+    assert!(e.matches(out.as_bytes()), "C04 histogram: HELP, TYPE, cumulative buckets, +Inf bucket equal to the count, _sum, _count; output only appended");
+    std::mem::forget(out);
+}
+/// Two families (gauge without help, counter with timestamp): order preserved, one TYPE block per
+/// family, empty help omits the HELP line, non-zero timestamp kept; `encode` (io::Write) and
+/// `encode_to_string` produce the same bytes as `encode_utf8`.
+#[cfg_attr(kani, kani::proof, kani::unwind(180),
+    kani::stub(crate::encoder::text::find_first_occurence, naive_first),
+    kani::stub(<f64 as std::fmt::Display>::fmt, f64_display_marker),
+    kani::stub(<i64 as std::fmt::Display>::fmt, i64_display_marker))]
+pub fn c04_encode_two_families_order_and_agreement() {
+    let (gv, cv) = (any_f64(), any_f64());
+    let ts = any_i64();
+    assume(ts != 0);
+    let mk = || {
+        let mut g = Gauge::default();
+        g.set_value(gv);
+        let mut m1 = Metric::default();
+        m1.set_gauge(g);
+        let mut f1 = MetricFamily::default();
+        f1.set_name(String::from("b"));
+        f1.set_field_type(MetricType::GAUGE);
+        f1.set_metric(vec![m1]);
+        let mut c = Counter::default();
+        c.set_value(cv);
+        let mut m2 = Metric::default();
+        m2.set_counter(c);
+        m2.set_timestamp_ms(ts);
+        let mut f2 = MetricFamily::default();
+        f2.set_name(String::from("a"));
+        f2.set_help(String::from("y"));
+        f2.set_field_type(MetricType::COUNTER);
+        f2.set_metric(vec![m2]);
+        [f1, f2]
+    };
+    let fams = mk();
+    let mut out = String::new();
+    assert!(TextEncoder::new().encode_utf8(&fams, &mut out).is_ok());
+    let mut e = Exp2::new();
+    e.lit("# TYPE b gauge\nb "); e.hex16(gv.to_bits()); e.lit("\n");
+    e.lit("# HELP a y\n# TYPE a counter\na "); e.hex16(cv.to_bits()); e.lit(" t"); e.hex16(ts as u64); e.lit("\n");
+    assert!(e.matches(out.as_bytes()), "C04 families in order, one header block each, empty help omitted, timestamp kept");
+    let mut w: Vec<u8> = Vec::with_capacity(128);
+    assert!(crate::encoder::Encoder::encode(&TextEncoder::new(), &fams, &mut w).is_ok());
+    assert!(e.matches(&w), "C04 encode (io::Write) produces the same bytes as encode_utf8");
+    let s2 = TextEncoder::new().encode_to_string(&fams).unwrap();
+    assert!(e.matches(s2.as_bytes()), "C04 encode_to_string produces the same bytes as encode_utf8");
+    std::mem::forget((out, w, s2));
+    std::mem::forget(fams);
+}
+/// Summary family: quantile lines, _sum, _count.
+#[cfg_attr(kani, kani::proof, kani::unwind(180),
+    kani::stub(crate::encoder::text::find_first_occurence, naive_first),
+    kani::stub(<f64 as std::fmt::Display>::fmt, f64_display_marker),
+    kani::stub(<i64 as std::fmt::Display>::fmt, i64_display_marker))]
+pub fn c04_encode_summary_family_layout() {
+    let (q, v, sum) = (any_f64(), any_f64(), any_f64());
+    let cnt = any_u64();
+    let mut sm = Summary::default();
+    sm.set_sample_count(cnt);
+    sm.set_sample_sum(sum);
+    let mut qt = Quantile::default();
+    qt.set_quantile(q);
+    qt.set_value(v);
+    sm.set_quantile(vec![qt]);
+    let mut m = Metric::default();
+    m.set_summary(sm);
+    let mut mf = MetricFamily::default();
+    mf.set_name(String::from("s"));
+    mf.set_field_type(MetricType::SUMMARY);
+    mf.set_metric(vec![m]);
+    let mut out = String::new();
+    assert!(TextEncoder::new().encode_utf8(&[mf], &mut out).is_ok());
+    let mut e = Exp2::new();
+    e.lit("# TYPE s summary\ns{quantile=\""); e.hex16(q.to_bits()); e.lit("\"} "); e.hex16(v.to_bits()); e.lit("\n");
+    e.lit("s_sum "); e.hex16(sum.to_bits()); e.lit("\ns_count "); e.hex16((cnt as f64).to_bits()); e.lit("\n");
+    assert!(e.matches(out.as_bytes()), "C04 summary: quantile lines, _sum, _count");
+    std::mem::forget(out);
+}
+
+/// expected bytes, 200-byte capacity
+struct Exp2 {
+    data: [u8; 200],
+    len: usize,
+}
+impl Exp2 {
+    fn new() -> Exp2 { Exp2 { data: [0; 200], len: 0 } }
+    fn push(&mut self, b: u8) { self.data[self.len] = b; self.len += 1; }
+    fn lit(&mut self, s: &str) { let b = s.as_bytes(); let mut i = 0; while i < b.len() { self.push(b[i]); i += 1; } }
+    fn hex16(&mut self, bits: u64) {
+        let mut i = 0;
+        while i < 16 {
+            let nib = ((bits >> (60 - 4 * i)) & 0xf) as u8;
+            self.push(if nib < 10 { b'0' + nib } else { b'a' + (nib - 10) });
+            i += 1;
+        }
+    }
+    /// byte-for-byte equality with explicit per-position comparison (positions are concrete)
+    fn matches(&self, got: &[u8]) -> bool {
+        if got.len() != self.len { return false; }
+        let mut ok = true;
+        let mut i = 0;
+        while i < self.len {
+            if got[i] != self.data[i] { ok = false; }
+            i += 1;
+        }
+        ok
+    }
+}
+
 pub fn dispatch(name: &str) -> Option<fn()> {
     Some(match name {
+        "c04_escape_string_1_byte" => c04_escape_string_1_byte,
         "c04_escape_string_2_bytes" => c04_escape_string_2_bytes,
         "c04_escape_string_3_bytes" => c04_escape_string_3_bytes,
         "c04_escape_string_multibyte" => c04_escape_string_multibyte,
         "c04_write_sample_layout" => c04_write_sample_layout,
         "c04_write_sample_no_labels" => c04_write_sample_no_labels,
+        "c04_encode_histogram_family_layout" => c04_encode_histogram_family_layout,
+        "c04_encode_two_families_order_and_agreement" => c04_encode_two_families_order_and_agreement,
+        "c04_encode_summary_family_layout" => c04_encode_summary_family_layout,
         _ => return None,
     })
 }
